@@ -42,6 +42,9 @@ class PyArray:
     __slots__ = ("items",)
 
     def __init__(self, *xs):
+        import types as _types
+        if len(xs) == 1 and isinstance(xs[0], _types.GeneratorType):
+            xs = tuple(xs[0])           # array(e for e in ...) comprehension form
         self.items = list(xs)
 
     def _idx(self, i):
